@@ -16,6 +16,7 @@
 EXTENDS Integers, Sequences, FiniteSets, TLC, Json
 
 CONSTANTS Nodes, MaxEvents,
+          WithReload,      \* BOOLEAN: histories may end with a reload hand-over (C16)
           Stricts, Excl,   \* the shapes of Select calls in the history (subsets of BOOLEAN and of Nodes \cup {0})
           Fams, Doms       \* the network types that appear in the history (subsets of {"4","6"} and {"data","dns","tcp"})
 
@@ -28,11 +29,11 @@ Policies == {"min", "random"} \cup {"fixed1"} \cup (IF Cardinality(Nodes) > 1 TH
 FixedIndex(p) == IF p = "fixed1" THEN 1 ELSE 2
 NoNode == 0
 
-VARIABLES alive, policy, policy0, hist
-vars == <<alive, policy, policy0, hist>>
+VARIABLES alive, policy, policy0, ended, hist
+vars == <<alive, policy, policy0, ended, hist>>
 
 Init == /\ alive = [n \in Nodes |-> [t \in Types |-> TRUE]]       \* nodes start alive
-        /\ policy \in Policies /\ policy0 = policy
+        /\ policy \in Policies /\ policy0 = policy /\ ended = FALSE
         /\ hist = <<>>
 
 Chain(t) == IF t.dom = "data" THEN <<t, T("dns", t.fam), T("tcp", t.fam)>> ELSE <<t>>
@@ -52,20 +53,37 @@ Expect(t, strict, ex) ==
 
 Rec(ev, n, t, x) == [ev |-> ev, n |-> n, t |-> t, x |-> x]
 NoT == T("tcp", "4")
-Kill(n, t) == /\ alive[n][t] /\ alive' = [alive EXCEPT ![n][t] = FALSE] /\ UNCHANGED <<policy, policy0>>
+Kill(n, t) == /\ alive[n][t] /\ alive' = [alive EXCEPT ![n][t] = FALSE] /\ UNCHANGED <<policy, policy0, ended>>
               /\ hist' = Append(hist, Rec("kill", n, t, [strict |-> FALSE, ex |-> NoNode, policy |-> policy, expect |-> [kind |-> "", nodes |-> {}, pref |-> {}]]))
-Revive(n, t) == /\ ~alive[n][t] /\ alive' = [alive EXCEPT ![n][t] = TRUE] /\ UNCHANGED <<policy, policy0>>
+Revive(n, t) == /\ ~alive[n][t] /\ alive' = [alive EXCEPT ![n][t] = TRUE] /\ UNCHANGED <<policy, policy0, ended>>
                 /\ hist' = Append(hist, Rec("revive", n, t, [strict |-> FALSE, ex |-> NoNode, policy |-> policy, expect |-> [kind |-> "", nodes |-> {}, pref |-> {}]]))
-SetPolicy(p) == /\ p # policy /\ policy' = p /\ UNCHANGED <<alive, policy0>>
+SetPolicy(p) == /\ p # policy /\ policy' = p /\ UNCHANGED <<alive, policy0, ended>>
                 /\ hist' = Append(hist, Rec("policy", NoNode, NoT, [strict |-> FALSE, ex |-> NoNode, policy |-> p, expect |-> [kind |-> "", nodes |-> {}, pref |-> {}]]))
 Select(t, strict, ex) ==
-  /\ UNCHANGED <<alive, policy, policy0>>
+  /\ UNCHANGED <<alive, policy, policy0, ended>>
   /\ hist' = Append(hist, Rec("select", NoNode, t, [strict |-> strict, ex |-> ex, policy |-> policy, expect |-> Expect(t, strict, ex)]))
 
-Next == /\ Len(hist) < MaxEvents
+\* C16 (reload hand-over): the new generation inherits the last known state of every node, and a type for which no node is
+\* alive gets exactly one selectable node (ControlPlane.InheritDialerHealthFrom: CaptureReloadSelectionFallback on the new
+\* group, RestoreHealthSnapshot per node, EnsureReloadSelectionFloor); the history ends with the reload
+EmptyTypes == {t \in Types : \A n \in Nodes : ~alive[n][t]}
+Reload == /\ WithReload /\ ~ended
+          /\ IF policy \in {"fixed1", "fixed2"}
+             THEN alive' = alive            \* a fixed policy selects its node whatever its health: nothing to keep alive
+             ELSE \E f \in [EmptyTypes -> Nodes] :
+                    alive' = [n \in Nodes |-> [t \in Types |-> IF t \in EmptyTypes THEN f[t] = n ELSE alive[n][t]]]
+          /\ ended' = TRUE
+          /\ hist' = Append(hist, Rec("reload", NoNode, NoT, [strict |-> FALSE, ex |-> NoNode, policy |-> policy, expect |-> [kind |-> "", nodes |-> {}, pref |-> {}]]))
+          /\ UNCHANGED <<policy, policy0>>
+\* after the hand-over every type has a selectable node, and what was known is kept
+FloorHolds == ended => (policy \in {"fixed1", "fixed2"} \/ \A t \in Types : \E n \in Nodes : alive[n][t])      \* something is selectable for every type
+KeepsKnown == [][ (~ended /\ ended') => \A t \in Types : (\E n \in Nodes : alive[n][t]) => \A n \in Nodes : alive'[n][t] = alive[n][t] ]_vars
+
+Next == /\ Len(hist) < MaxEvents /\ ~ended
         /\ \/ \E n \in Nodes, t \in EvTypes : Kill(n, t) \/ Revive(n, t)
            \/ \E p \in Policies : SetPolicy(p)
            \/ \E t \in EvTypes, s \in Stricts, ex \in Excl : Select(t, s, ex)
+           \/ Reload
 Spec == Init /\ [][Next]_vars
 
 (* ---------------------------------------------------------------- property layer *)
@@ -79,6 +97,7 @@ ExcludedNeverOffered == \A i \in Selects : LET e == hist[i].x IN
 OfferWhenPossible == \A i \in Selects : hist[i].x.expect.kind # "none" => hist[i].x.expect.nodes # {}
 
 Behaviour == [nodes |-> Cardinality(Nodes), init |-> policy0, hist |-> hist]
+EmitReload == ended => PrintT(<<"BEHAVIOUR", ToJson(Behaviour)>>)
 Emit == Len(hist) = MaxEvents => PrintT(<<"BEHAVIOUR", ToJson(Behaviour)>>)
 \* exhaustive small configurations: only histories that end in a selection are worth replaying
 EmitSel == (Len(hist) = MaxEvents /\ hist[Len(hist)].ev = "select") => PrintT(<<"BEHAVIOUR", ToJson(Behaviour)>>)
